@@ -22,6 +22,8 @@ inline std::vector<std::string>& trace() { static std::vector<std::string> t; re
 inline dzn::pump*& the_pump() { static dzn::pump* p = nullptr; return p; }
 inline void*& the_component() { static void* c = nullptr; return c; }
 inline std::map<std::string, int>& replies() { static std::map<std::string, int> r; return r; }
+inline int& skip_enc() { static int k = -1; return k; }
+inline int& skip_user() { static int k = -1; return k; }
 inline std::string ctx() { return (the_pump() && the_pump()->in_dispatch) ? "D" : "C"; }
 inline void rec(const std::string& line) { trace().push_back(line); }
 
